@@ -7,6 +7,7 @@ import sys
 import ZConfig
 from ZConfig import info
 from ZConfig import url
+from ZConfig.schema import BaseParser
 
 
 def get_name_info(self, attrs, element, default=None):
@@ -431,3 +432,120 @@ def schemaComponentSource(self, package, filename):
         raise ZConfig.SchemaResourceError("not a package", filename=filename,
                                           package=package)
     return f"package:{package}:{filename}"
+
+
+# --------------------------------------------------------------------------
+# Constructors and the small methods every element passes through: the
+# parser starts with nothing remembered (no locator, no schema, empty stacks),
+# one type / info object is popped per closed element, a base schema's
+# description is offered to the extending parser and the top-level schema takes
+# the last offered one only if it has none of its own.
+
+def baseparser_init(self, loader, url):
+    self._registry = loader.registry
+    self._loader = loader
+    self._basic_key = self._registry.get("basic-key")
+    self._identifier = self._registry.get("identifier")
+    self._cdata = None
+    self._locator = None
+    self._prefixes = []
+    self._schema = None
+    self._stack = []
+    self._url = url
+    self._elem_stack = []
+
+
+def schemaparser_init(self, loader, url, extending_parser=None):
+    BaseParser.__init__(self, loader, url)
+    self._extending_parser = extending_parser
+    self._base_keytypes = []
+    self._base_datatypes = []
+    self._descriptions = []
+
+
+def componentparser_init(self, loader, url, schema):
+    BaseParser.__init__(self, loader, url)
+    self._parent = schema
+
+
+def setDocumentLocator(self, locator):
+    self._locator = locator
+
+
+def endDocument(self):
+    if self._schema is None:
+        self.error("no document element found")
+
+
+def get_position(self):
+    if self._locator:
+        return (self._locator.getLineNumber(),
+                self._locator.getColumnNumber(),
+                (self._locator.getSystemId() or self._url))
+    return None, None, self._url
+
+
+def characters_metadefault(self, data):
+    self._stack[-1].metadefault = data
+
+
+def end_import(self):
+    pass
+
+
+def end_pop(self):
+    # end_section / end_multisection / end_abstracttype
+    self._stack.pop()
+
+
+def end_schema(self):
+    del self._stack[-1]
+    assert not self._stack
+    self.pop_prefix()
+    assert not self._prefixes
+    schema = self._schema
+    if self._extending_parser is None:
+        if self._descriptions and not schema.description:
+            schema.description = self._descriptions[-1]
+    elif schema.description:
+        self._extending_parser._descriptions.append(schema.description)
+        schema.description = None
+
+
+def component_characters_description(self, data):
+    if self._stack:
+        self._stack[-1].description = data
+
+
+def component_start_key(self, attrs):
+    self._check_not_toplevel("key")
+    BaseParser.start_key(self, attrs)
+
+
+def component_start_multikey(self, attrs):
+    self._check_not_toplevel("multikey")
+    BaseParser.start_multikey(self, attrs)
+
+
+def component_start_section(self, attrs):
+    self._check_not_toplevel("section")
+    BaseParser.start_section(self, attrs)
+
+
+def component_start_multisection(self, attrs):
+    self._check_not_toplevel("multisection")
+    BaseParser.start_multisection(self, attrs)
+
+
+def start_component(self, attrs):
+    self._schema = self._parent
+    self.push_prefix(attrs)
+
+
+def end_component(self):
+    self.pop_prefix()
+
+
+def check_not_toplevel(self, what):
+    if not self._stack:
+        self.error("cannot define a top-level item in a component")
